@@ -185,8 +185,8 @@ def spectral_vs_model(ctx, spec_cases, spec_res):
             ncmp += 1
             ref = max(abs(pr["phi0"]), c["yield"]["sigma_y"])
             # theta is dimension 1/stress: compare theta*phi0 (= dGamma scale), phi, dGamma, eigen-stress
-            checks = [("theta*phi0", th * pr["phi0"], pr["theta"] * pr["phi0"], max(c["eps_y"], 1e-12)),
-                      ("phi", ph, pr["phi"], ref), ("dGamma", dg, pr["dGamma"], max(c["eps_y"], 1e-12))]
+            checks = [("theta*phi0", th * pr["phi0"], pr["theta"] * pr["phi0"], max(c["eps_y"], abs(pr["theta"] * pr["phi0"]))),
+                      ("phi", ph, pr["phi"], ref), ("dGamma", dg, pr["dGamma"], max(c["eps_y"], abs(pr["dGamma"])))]
             ny = max(max(abs(v) for v in pr["sig_eig"]), 1e-6 * c["yield"]["sigma_y"])
             checks += [("sig_eig[%d]" % k, a, b, ny) for k, (a, b) in enumerate(zip(se, pr["sig_eig"]))]
             for nm, mv_, iv, scale in checks:
